@@ -680,12 +680,12 @@ func cmdCheck(args []string) int {
 	var kernelExtra map[string]interface{}
 	var kviol []kViolation
 	var kernelUnreproduced []string
-	if id == "C19" {
+	if _, has := realLegs[id]; has {
 		kb := tc.budgetSec / 3
 		if kb < 15 {
 			kb = 15
 		}
-		kernelExtra, kviol = runKernelLeg(seed, *tier, kb, W)
+		kernelExtra, kviol = runKernelLeg(id, seed, *tier, kb, W)
 	}
 	// ---- violations: dedupe by class, minimise, double replay
 	known := loadKnown()
@@ -786,21 +786,21 @@ func cmdCheck(args []string) int {
 		reported = append(reported, map[string]interface{}{"known": false, "clause": rf.Violation.Clause, "key": rf.Violation.Key, "replay": path, "detail": abbreviate(rf.Violation.Detail, 400)})
 		exit = 1
 	}
-	if id == "C19" {
+	if _, has := realLegs[id]; has {
 		for _, kv := range kviol {
 			c := class{"kernel:" + kv.Clause, kv.Key}
 			if seen[c] {
 				continue
 			}
 			seen[c] = true
-			name := fmt.Sprintf("C19-kernel-%s-%d.json", sanitize(kv.Clause+"-"+kv.Key), kv.History.Seed)
+			name := fmt.Sprintf("%s-kernel-%s-%d.json", id, sanitize(kv.Clause+"-"+kv.Key), kv.History.Seed)
 			path := filepath.Join(replayDir, name)
-			rfb, _ := json.MarshalIndent(map[string]interface{}{"property": "C19", "kernel": true, "history": kv.History, "violation": Violation{kv.Clause, kv.Key, kv.Detail}, "tree": tree}, "", " ")
+			rfb, _ := json.MarshalIndent(map[string]interface{}{"property": id, "kernel": true, "history": kv.History, "violation": Violation{kv.Clause, kv.Key, kv.Detail}, "tree": tree}, "", " ")
 			os.WriteFile(path, rfb, 0o644)
 			// a kernel-leg violation is reported only if re-executing the history shows it again, twice
 			okN := 0
 			for i := 0; i < 2; i++ {
-				if vs, err := replayKernelLeg(kv.History); err == nil {
+				if vs, err := replayKernelLeg(id, kv.History); err == nil {
 					for _, v2 := range vs {
 						if v2.Clause == kv.Clause && v2.Key == kv.Key {
 							okN++
@@ -976,19 +976,20 @@ func cmdReplay(args []string) int {
 		fatal2("%v", err)
 	}
 	var kr struct {
+		Property  string    `json:"property"`
 		Kernel    bool      `json:"kernel"`
 		History   kHistory  `json:"history"`
 		Violation Violation `json:"violation"`
 	}
 	if json.Unmarshal(raw, &kr) == nil && kr.Kernel {
-		vs, err := replayKernelLeg(kr.History)
+		vs, err := replayKernelLeg(kr.Property, kr.History)
 		if err != nil {
 			fatal2("%v", err)
 		}
 		for _, v := range vs {
 			fmt.Printf("  violation clause=%s key=%s: %s\n", v.Clause, v.Key, abbreviate(v.Detail, 800))
 			if v.Clause == kr.Violation.Clause && v.Key == kr.Violation.Key {
-				fmt.Printf("VIOLATION property=C19 replay=%s\n", path)
+				fmt.Printf("VIOLATION property=%s replay=%s\n", kr.Property, path)
 				return 1
 			}
 		}
